@@ -63,6 +63,20 @@ func c03ImplAccepts(codec, s string) bool {
 	return err == nil
 }
 
+// c03AddrAccepts: DecodeAddress with an explicit prefix is the second CashAddr decoding
+// entry point; a corrupted prefix-qualified string must be rejected there too (on
+// every network that uses the prefix).
+func c03AddrAccepts(prefix, s string) bool {
+	for _, n := range nets {
+		if n.Params.CashAddressPrefix == prefix || (n.Params.SlpAddressPrefix != "" && n.Params.SlpAddressPrefix == prefix) {
+			if _, err := bchutil.DecodeAddress(s, n.Params); err == nil {
+				return true
+			}
+		}
+	}
+	return false
+}
+
 func c03RefAccepts(codec, s string) bool {
 	if codec == "cashaddr" {
 		lower, upper := asciiLower(s), asciiUpper(s)
@@ -134,6 +148,13 @@ func evalC03Sub(c c03Sub, o *Obs) error {
 			return fmt.Errorf("%s decoder accepts %q, obtained from the valid string %q by substituting %d payload characters",
 				c.Codec, s, valid, len(changed))
 		}
+		if c.Codec == "cashaddr" && c03AddrAccepts(c.Prefix, s) {
+			return fmt.Errorf("DecodeAddress accepts %q, obtained from the valid string %q by substituting %d payload characters",
+				s, valid, len(changed))
+		}
+	}
+	if c.Codec == "cashaddr" && c03AddrAccepts(c.Prefix, valid) {
+		o.Class("C03:cashaddr-valid-is-an-address")
 	}
 	if c.AllSingles {
 		o.Class("C03:" + c.Codec + "-all-singles")
@@ -151,7 +172,7 @@ func evalC03Sub(c c03Sub, o *Obs) error {
 				}
 				bb[pos] = ch
 				s := string(bb)
-				acc := c03ImplAccepts(c.Codec, s)
+				acc := c03ImplAccepts(c.Codec, s) || (c.Codec == "cashaddr" && c03AddrAccepts(c.Prefix, s))
 				if acc {
 					return fmt.Errorf("%s decoder accepts %q: single substitution at payload position %d of valid %q",
 						c.Codec, s, pos-start, valid)
@@ -176,6 +197,16 @@ func genC03Sub(t *rapid.T) c03Sub {
 		c.Syms = make([]byte, n)
 		for i := range c.Syms {
 			c.Syms[i] = byte(rapid.IntRange(0, 31).Draw(t, "sym"))
+		}
+		if rapid.Bool().Draw(t, "address") { // a real address payload (so DecodeAddress accepts the uncorrupted string)
+			ver, hl := byte(0), 20
+			switch rapid.IntRange(0, 2).Draw(t, "akind") {
+			case 1:
+				ver = 0x08
+			case 2:
+				ver, hl = 0x0b, 32
+			}
+			c.Syms, _ = refConvertBits(append([]byte{ver}, genBytesN(t, "ahash", hl)...), 8, 5, true)
 		}
 	} else {
 		c.Codec = "bech32"
@@ -791,6 +822,6 @@ func TestC03(t *testing.T) {
 		ev.Note("phase times: linearity %.1fs, substitutions %.1fs, bech32 enumeration %.1fs, cashaddr enumeration %.1fs",
 			t1.Sub(t0).Seconds(), t2.Sub(t1).Seconds(), t3.Sub(t2).Seconds(), time.Since(t3).Seconds())
 		ev.requireClasses("C03:linearity-cashaddr", "C03:linearity-bech32", "C03:cashaddr-all-singles", "C03:bech32-all-singles",
-			"C03:cashaddr-weight-5", "C03:bech32-weight-4", "C03:cashaddr-valid-accepted", "C03:bech32-valid-accepted")
+			"C03:cashaddr-weight-5", "C03:bech32-weight-4", "C03:cashaddr-valid-accepted", "C03:bech32-valid-accepted", "C03:cashaddr-valid-is-an-address")
 	})
 }
